@@ -25,3 +25,4 @@ Check C15_http_handler_records : forall r, handler_mop HTTP_METRICS r = Some (ex
 Check C15_grpc_handler_records : forall r, handler_mop GRPC_METRICS r = Some (expected_mop Grpc r).
 Check C15_handler_denied_iff_denial : forall t r,
   In CDenied (micro (expected_mop t r)) <-> exists l rm rs rt, r = AOk false l rm rs rt.
+Check C15_counters_only_incremented_atomically : forall p, In p METRICS_ATOMIC_OPS -> snd p = "fetch_add(1)"%string.
